@@ -570,3 +570,45 @@ func rootOf(v ssa.Value) ssa.Value {
 	}
 	return v
 }
+
+// NarrowedArgs: calls in fn (closures included) matching spec whose argument idx is - through boxing - an integer
+// conversion to a NARROWER type (int64 -> int32): the upper bits of the source never reach the callee. Returns the
+// offending calls and the number of calls inspected.
+func NarrowedArgs(fn *ssa.Function, spec string, idx int) (bad []ssa.CallInstruction, n int) {
+	size := func(t types.Type) int {
+		b, ok := t.Underlying().(*types.Basic)
+		if !ok || b.Info()&types.IsInteger == 0 {
+			return 0
+		}
+		switch b.Kind() {
+		case types.Int8, types.Uint8:
+			return 1
+		case types.Int16, types.Uint16:
+			return 2
+		case types.Int32, types.Uint32:
+			return 4
+		default:
+			return 8
+		}
+	}
+	for _, ci := range CallsIn(fn, spec) {
+		n++
+		args := ci.Common().Args
+		if idx >= len(args) {
+			continue
+		}
+		v := args[idx]
+		if mi, ok := v.(*ssa.MakeInterface); ok {
+			v = mi.X
+		}
+		cv, ok := v.(*ssa.Convert)
+		if !ok {
+			continue
+		}
+		from, to := size(cv.X.Type()), size(cv.Type())
+		if from > 0 && to > 0 && to < from {
+			bad = append(bad, ci)
+		}
+	}
+	return
+}
